@@ -80,7 +80,44 @@ def _handle(req: dict) -> dict:
         snap = RW.snap_tree(res, {}, [0], with_ref=False)
         registered = [ASTNode.get_any(x.id) is x for x in RW.walk(res)]
         return {"snap": snap, "registered": registered}
+    if req["op"] == "source_cycles":
+        return _source_cycles(req)
     return {"error": "bad request"}
+
+
+def _source_cycles(req: dict) -> dict:
+    """A consumer process that handles several batches, each written by a producer with its own source table: for
+    every batch the documented cycle -- clear_registry, load_serialized_sources, read the index-based document."""
+    from pyoak.node import ASTNode
+    from pyoak.origin import SOURCE_OPTIMIZED_SERIALIZATION_KEY, CodeOrigin, MemoryTextSource, Source, get_code_range
+    from universe import v2 as U
+
+    idx = {SOURCE_OPTIMIZED_SERIALIZATION_KEY: True}
+    docs = []
+    for b in req["batches"]:  # the producers, one after the other, each starting from an empty table
+        Source.clear_registry()
+        srcs = {k: MemoryTextSource(U.SRC[k].get_raw(), source_uri=U.SRC[k].source_uri) for k in b["src"]}
+        leaves = tuple(U.CLS["LeafA"](a=f"{k}{i}", origin=CodeOrigin(srcs[k], get_code_range(i, 1, i, i + 1, 1, i + 1))) for i, k in enumerate(b["leaves"]))
+        tree = U.CLS["Seq"](items=leaves, origin=CodeOrigin(srcs[b["leaves"][0]], get_code_range(0, 1, 0, 3, 1, 3)))
+        try:
+            payload = tree.to_json(serialization_options=idx) if b.get("idx", True) else tree.to_json()
+        except Exception as e:  # noqa: BLE001
+            return {"error": f"writer {type(e).__name__}: {e}"}
+        docs.append((payload, Source.all_as_dict(), [x.id for x in tree.items]))
+        tree.detach()
+        del tree, leaves
+    out = []
+    for (payload, sources, _ids), b in zip(docs, req["batches"]):  # the consumer
+        try:
+            Source.clear_registry()
+            Source.load_serialized_sources(sources)
+            t = ASTNode.from_json(payload, serialization_options=idx if b.get("idx", True) else None)
+        except Exception as e:  # noqa: BLE001
+            return {"error": f"reader {type(e).__name__}: {e}"}
+        out.append([[x.a, x.origin.source.source_uri] for x in t.items])
+        t.detach()
+        del t
+    return {"seen": out}
 
 
 def main() -> None:
